@@ -242,6 +242,11 @@ def unit_history(ctx, rng, nq):
     return hist, problems
 
 
+# sources a query may legitimately store into: the combined forward transform gets the WCS's own box re-assigned (idempotent), and the
+# freshly built inverse gets its `.inverse`; the header returned by _to_fits_sip is a new object
+ALLOWED_ALIAS = '["self.forward_transform"; "self.forward_transform.inverse"; "self._to_fits_sip()"]'
+
+
 def run(ctx):
     from py2coq import gen_writes as G
     from lib.common import REPO
@@ -276,6 +281,25 @@ def run(ctx):
                    r1[0], f"edit methods that do not reset the cache: {bad_edit}")
         ctx.oblige("C08_queries_write_only_cache: query methods assign no attribute other than the cache", r2[0],
                    f"queries writing other attributes: {[(m, sorted(W[m])) for m in bad_query]}")
+        oa = ("From Coq Require Import List String. Import ListNotations. Local Open Scope string_scope.\n"
+              "From GW Require Import C08.History.\nFrom WC08 Require Import Gen_writes.\n"
+              f"Theorem C08_queries_mutate_no_live_object : queries_alias_clean alias_writes {ALLOWED_ALIAS} {queries} = true.\n"
+              "Proof. vm_compute. reflexivity. Qed.\n")
+        r3 = ctx.dyn_build("WC08", {"ObAlias": oa}, [], ["ObAlias"])["ObAlias"]
+        import ast as _ast
+        amap = {}
+        try:
+            txt = src[src.index("Definition alias_writes"):]
+            for m_, lst in __import__("re").findall(r'\("([^"]+)", \[([^\]]*)\]\)', txt):
+                amap[m_] = [x.strip().strip('"') for x in lst.split(";") if x.strip()]
+        except ValueError:
+            pass
+        allowed = [x.strip().strip('"') for x in ALLOWED_ALIAS.strip("[]").split(";")]
+        bad_alias = [(m, [x for x in amap.get(m, []) if x not in allowed]) for m in G.QUERIES if [x for x in amap.get(m, []) if x not in allowed]]
+        ctx.oblige("C08_queries_mutate_no_live_object: no query changes in place an object obtained from the WCS (alias table)", r3[0],
+                   f"queries mutating live objects: {bad_alias}")
+        if not r3[0]:
+            bad_query = (bad_query or []) + [f"{m} mutates {srcs}" for m, srcs in bad_alias]
     # ---- twin differential --------------------------------------------------------------------
     rng = ctx.rng
     nh = 60 if ctx.quick else 600
